@@ -3,13 +3,12 @@ Props/C05_Ac3.lean — C05 / C04 statements for AC-3 / E-AC-3 (mutagen/ac3.py `A
 Parser: Model/Info/Ac3.lean (bit reader of Model/Info/Aac.lean), meaning of the fields: Spec/Info/Ac3.lean, tables:
 Generated/Tables.lean.
 
-The parser is `fields` (the bit reads, in order) followed by `values` (checks, table look-ups, arithmetic).  Proved
-here: for ALL values of the fixed fields the `values` step gives exactly what the specification says (or the
-format's error for the reserved codes), and totality on all byte strings.  NOT proved: that the `fields` step
-returns the fields of a header built from the specification (the bit extraction on symbolic bytes; tied by
-harness/info_tie_a.py only), hence no `ac3_info_decodes` on bytes.
+The parser is `fields` (the bit reads, in order) followed by `values` (checks, table look-ups, arithmetic) and the
+skipping of the rest of bsi().  Proved here: the `values` step against the specification for ALL field values,
+totality on all byte strings, and the decode theorems on the bytes of a syncframe header built from the
+specification (Spec/Info/Ac3.lean: `Ac3.build`, `Eac3.build`).
 -/
-import MutagenModel.Proofs.Info.Ac3
+import MutagenModel.Proofs.Info.Ac3Decode
 set_option linter.unusedVariables false
 namespace Mutagen.C05
 open Mutagen Mutagen.Info Mutagen.Info.Ac3
@@ -47,6 +46,65 @@ theorem ac3_fields_in_range (f : Bytes) (r r' : Aac.R) (a b c d : Nat) (h : norm
 /-- C04 side: on EVERY byte string `AC3Info` either succeeds or raises a `MutagenError` (`AC3Error`): no table
 look-up can fail (`IndexError`), no division by zero. -/
 theorem ac3_info_total (f : Bytes) : ∀ e, parse f = .error e → e = .mutagen := parse_total f
+
+/-- C05 for AC-3: for EVERY syncframe header the specification allows (crc1, the 3 rates, the 38 frame size codes,
+bsid 0..10, bsmod, the 8 channel modes with their mix-level fields, lfeon, per programme dialnorm and the optional
+compr / langcod / audprod fields, copyright and original bits, the optional timecod2 / xbsi2, 1..64 bytes of addbsi)
+followed by any payload, `AC3Info` reports exactly the encoded rate, nominal bit rate and channel count, codec
+"ac-3", and as `length` its documented guess `8 · (bytes behind the header) / bitrate` — PROVIDED timecod1 / xbsi1 is
+absent: mutagen reads both "exists" flags before the first value, the standard puts timecod1 directly behind
+timecod1e (`ac3_timecode_order_misread`). -/
+theorem ac3_info_decodes_partial (h : Spec.Ac3.Ac3) (ok : h.OK) (htc : h.timecod1 = none) :
+    parse h.build = .ok h.expected :=
+  parse_ac3 h ok htc
+
+/-- C05 for E-AC-3, everything but `length`: for EVERY header without mixing metadata the specification allows (stream
+types 0..2, substream id, frmsiz ≥ 3, fscod / fscod2 / numblkscod, the 8 channel modes, lfeon, bsid 11..16, dialnorm and
+compr of one or two programmes, chanmap, the informational metadata, convsync, blkid / frmsizecod, addbsi) followed by
+any payload: if `AC3Info` loads the file, rate, data rate `frame bits · rate / (blocks · 256)`, channel count and codec
+"ec-3" are the encoded ones (otherwise it raises `AC3Error`: the skipping of the optional fields deviates from the
+standard for convsync and blkid, see `eac3_convsync_misread`, which only moves the point from which `length` is
+guessed and can run off a short file). -/
+theorem eac3_info_decodes_except_length (h : Spec.Ac3.Eac3) (ok : h.OK) :
+    parse h.build = .error .mutagen ∨
+    ∃ len, parse h.build = .ok { channels := h.values.2.2, sampleRate := h.values.1, bitrate := h.values.2.1, length := len,
+                                 eac3 := true } :=
+  parse_eac3 h ok
+
+/-- the fixed E-AC-3 fields are read back from a specification-built header, for all values -/
+theorem eac3_fields_decode (f : Bytes) (r : Aac.R) (h : Spec.Ac3.Eac3) (ok : h.OK) (rest : List Bool)
+    (ha : Aac.At f r (h.fieldBits ++ rest)) :
+    enhancedFields f r = some (h.strmtyp, h.frmsiz, h.fscod, (if h.fscod = 3 then h.fscod2 else 0), h.blocksCode, h.acmod, h.lfeon,
+      ⟨r.start, r.pos + 29⟩) :=
+  (enhancedFields_at f r h ok rest ha).1
+
+/-! ### deviations from the standard in the skipping of bsi() (they move only the start of the `length` guess) -/
+
+/-- a 48 kHz 192 kbit/s 2/0 AC-3 header with timecod1 = 0x2000 and 40 payload bytes -/
+def ac3Timecode : Spec.Ac3.Ac3 :=
+  ⟨0, 0, 20, 8, 0, 2, 0, 0, 0, 0, ⟨27, none, none, none⟩, ⟨27, none, none, none⟩, 1, 1, some 0x2000, none, none,
+    List.replicate 40 0x21⟩
+
+/-- NEW finding: the standard's order is timecod1e, timecod1, timecod2e, timecod2; mutagen reads timecod1e, timecod2e and
+then skips.  Here the top bit of timecod1 is taken for timecod2e and 28 instead of 15 bits are skipped: the guess starts
+one byte early (312 instead of 320 payload bits).
+Repro: `AC3(io.BytesIO(bytes.fromhex("0b77000014404363c00000" + "21"*40))).info.length * 192000` = 312.0 (E-AC-3 witness below:
+`bytes.fromhex("0b77017f3e86c40010" + "ff"*40)`, 336.0). -/
+theorem ac3_timecode_order_misread :
+    ac3Timecode.OK ∧ ac3Timecode.expected.length = some ⟨320, 192000⟩ ∧
+    parse ac3Timecode.build = .ok { ac3Timecode.expected with length := some ⟨312, 192000⟩ } := by decide +kernel
+
+/-- an independent (strmtyp 0) six-block 3/2 E-AC-3 header with one byte of addbsi and 40 payload bytes -/
+def eac3Addbsi : Spec.Ac3.Eac3 :=
+  ⟨0, 0, 383, 0, 0, 3, 7, 0, 16, 27, none, 27, none, none, none, 0, 0, 0, some [1], List.replicate 40 0xff⟩
+
+/-- NEW finding: the standard has convsync for strmtyp 0 when there are FEWER than six blocks (numblkscod ≠ 3); mutagen
+skips a bit when numblkscod = 3.  Here the skipped bit is addbsie, the addbsi is not skipped, and the guess starts two
+bytes early (336 instead of 320 payload bits). -/
+theorem eac3_convsync_misread :
+    eac3Addbsi.OK ∧ eac3Addbsi.bits.length = 52 ∧
+    parse eac3Addbsi.build = .ok { channels := 5, sampleRate := 48000, bitrate := 192000, length := some ⟨336, 192000⟩, eac3 := true } := by
+  decide +kernel
 
 /-! closed instances (kernel evaluation): a 44.1 kHz 192 kbit/s 3/2+LFE AC-3 header and a 48 kHz E-AC-3 header of 768 bytes
 per 6 blocks, each followed by 20 more bytes; `length` is 8 · (bytes behind the header) / bitrate -/
